@@ -738,6 +738,7 @@ func TestC09(t *testing.T) {
 	overTime(t, rep, env, &evals, &nontrivial, mine)
 	addressTypes(t, rep, env, &evals, &nontrivial, mine)
 	restarts(t, rep, env, &evals, &nontrivial, mine)
+	runFlapSched(t, rep, env)
 
 	rep.Add(evals, nontrivial, 0, 0)
 	if err := rep.Finish(env); err != nil {
